@@ -134,7 +134,7 @@ class AsmAbsEval(AbsEval):
             return ord(args[0])
         if isinstance(f, ClassRef) and f.module and len(args) == 1 and isinstance(args[0], BitVec) and not args[0].is_const():
             members = self.enum_members(f)
-            if members is not None and self.shared.get("sym_enum") == "invalid":
+            if members is not None and self.shared.get("sym_enum") == "invalid" and not (symbols_of(args[0]) & set(self.shared.get("member_syms") or ())):
                 raise raised("ValueError", f"<symbolic> is not a valid {f.name}", self.where(n))
         return super().call(f, args, kwargs, n)
 
@@ -345,7 +345,7 @@ class AsmAbs:
         out = self.method(asm, "_second_pass", [program_ast])
         return asm, out
 
-    def assemble_text(self, text: str, symtab: dict[str, Any], sym_enum: str = "member") -> dict:
+    def assemble_text(self, text: str, symtab: dict[str, Any], sym_enum: str = "member", member_syms: Any = frozenset()) -> dict:
         """Returns {'status': ok|parse-error|error, 'alias', 'segments', 'exc', ...} for a one-line program."""
         res: dict = {"status": "ok", "alias": None}
         try:
@@ -355,6 +355,7 @@ class AsmAbs:
             return res
         res["alias"] = _instr_alias(tree, self.lark)
         self.shared["sym_enum"] = sym_enum
+        self.shared["member_syms"] = frozenset(member_syms)
         try:
             program = self.transform(tree, symtab)
         except Raised as e:
